@@ -78,18 +78,17 @@ def prio_value(rdp, lf, pts, dist, order, l, r):
     dp = _dp(rdp, lf, dist)
     n = len(pts)
 
-    def order(pt, index):
-        if order_name == 'triangle':
+    def order_fn(pt, index):
+        if order == 'triangle':
             return rdp.order_triangle(pt, index, dp)
-        if order_name == 'area':
+        if order == 'area':
             return rdp.order_area(pt, index, dp)
         return rdp.order_segment(pt, index)
-    order_name = order
     vals = []
     if r < n:          # left child of points[l:n] split at r-1
-        vals.append(float(order(pts[l:n], r - 1 - l)[0]))
+        vals.append(float(order_fn(pts[l:n], r - 1 - l)[0]))
     if l > 0:          # right child of points[0:r] split at l
-        vals.append(float(order(pts[0:r], l)[1]))
+        vals.append(float(order_fn(pts[0:r], l)[1]))
     if not vals:       # the root: never a child
         return None, True
     ok = all((v == vals[0]) or (v != v and vals[0] != vals[0]) for v in vals)
